@@ -169,6 +169,12 @@ func generateGrid(family string, n int, r *rng, p func(string, ...any)) bool {
 	case "ecfault":
 		genEcFault(p)
 		return true
+	case "encgrid":
+		genEncGrid(p)
+		return true
+	case "depthgrid":
+		genDepthGrid(p)
+		return true
 	case "keyrt":
 		genKeyRT(r, n, p)
 		return true
@@ -630,6 +636,115 @@ func genEcFault(p func(string, ...any)) {
 				p("cs abbr sig v val:cs(%s;0102) %s 01 %s %s", hd(a), hd(a), e, v)
 				p("he H(-;{};-;{}) -16 %s - - %s %s", strings.Repeat("00", 32), e, v)
 			}
+		}
+	}
+}
+
+// C08 / C01 / C02: constructed values whose encoded protected map, payload or signature sits on a
+// length-prefix boundary (the encode-side counterpart of tbsgrid).
+func genEncGrid(p func(string, ...any)) {
+	targets := []int{22, 23, 24, 25, 254, 255, 256, 257, 65535, 65536}
+	for _, t := range targets {
+		// protected map {1: -7, 4: h'00…'} of exactly t bytes
+		pad := -1
+		for q := 0; q <= t; q++ {
+			if len(wMap(wInt(1), wInt(-7), wInt(4), wBstr(make([]byte, q))).enc()) == t {
+				pad = q
+			}
+		}
+		if pad >= 0 {
+			pm := fmt.Sprintf("{i64:1=a:-7,i64:4=b:%s}", strings.Repeat("00", pad))
+			p("enc ph %s", pm)
+			p("enc s1 S1(H(-;%s;-;{});00;01)", pm)
+			p("enc sig cs(H(-;%s;-;{});01)", pm)
+			p("s1 t S1(H(-;%s;-;{});00;-) - T:-7:1 T:-7:1 a", pm)
+			p("s1 u S1(H(-;%s;-;{});00;-) 01 R:-7:1 R:-7:1 d", pm)
+			p("sm SM(H(-;%s;-;{});00;[cs(H(-;%s;-;{});-)]) - [T:-7:1] [T:-7:1] a", pm, pm)
+			p("cs full s1 p val:S1(H(-;%s;-;{});00;01) H(-;%s;-;{}) - T:-7:1 T:-7:1", pm, pm)
+			p("cs abbr sig v val:cs(H(-;%s;-;{});01) H(-;{};-;{}) 01 T:-7:1 T:-7:1", pm)
+			p("he H(-;{i64:4=b:%s};-;{}) -16 %s - - T:-7:1 T:-7:1", strings.Repeat("00", pad), strings.Repeat("00", 32))
+		}
+		// unprotected map, payload, signature and external data of exactly t bytes
+		um := fmt.Sprintf("{i64:4=b:%s}", strings.Repeat("11", t))
+		p("enc uh %s", um)
+		z := strings.Repeat("22", t)
+		p("enc s1 S1(H(-;{i64:1=a:-7};-;{});%s;%s)", z, z)
+		p("enc sm SM(H(-;{};-;{});%s;[cs(H(-;{i64:1=a:-7};-;{});%s)])", z, z)
+		p("s1 t S1(H(-;{i64:1=a:-7};-;{});%s;-) %s T:-7:1 T:-7:1 a", z, z)
+		p("s1 t S1(H(-;{i64:1=a:-7};-;{});%s;-) - T:-7:1 T:-7:1 d", z)
+		p("cs full s1 v val:S1(H(-;{i64:1=a:-7};-;{});%s;%s) H(-;{i64:1=a:-7};-;{}) %s T:-7:1 T:-7:1", z, z, z)
+	}
+	// maps with 15..18, 23..26 and 40 entries (head width of the map itself)
+	for _, n := range []int{15, 16, 17, 18, 23, 24, 25, 40} {
+		parts := []string{}
+		for i := 0; i < n; i++ {
+			parts = append(parts, fmt.Sprintf("i64:%d=i64:%d", 100+i, i))
+		}
+		m := "{" + strings.Join(parts, ",") + "}"
+		p("enc ph %s", m)
+		p("enc uh %s", m)
+		p("s1 t S1(H(-;%s;-;%s);00;-) 01 T:-7:1 T:-7:1 a", m, m)
+		p("enc key K(1;-;-8;-;-;{i64:-1=c:6,i64:-2=b:%s,%s})", strings.Repeat("33", 32), strings.Join(parts, ","))
+	}
+}
+
+func nestArr(depth int, leaf *W) *W {
+	w := leaf
+	for i := 0; i < depth; i++ {
+		w = wArr(w)
+	}
+	return w
+}
+
+func nestGo(depth int, leaf string) string {
+	return strings.Repeat("[", depth) + leaf + strings.Repeat("]", depth)
+}
+
+// C05 / C06 / C07 / C08: nesting depth of header values and of countersignature chains around
+// the decoder's limit (32 levels, counted from the message array)
+func genDepthGrid(p func(string, ...any)) {
+	for d := 1; d <= 34; d++ {
+		v := nestArr(d, wInt(1))
+		// protected value (inside the bstr the depth count restarts), unprotected value
+		prot := wBstr(wMap(wInt(1), wInt(-7), wInt(99), v).enc())
+		sig := tsig(1, refTBS1(prot.B, []byte{}, []byte{0}))
+		p("v1 t %s - T:-7:1 -", hexs(wTag(18, wArr(prot, wMap(), wBstr([]byte{0}), wBstr(sig))).enc()))
+		prot2 := wBstr(wMap(wInt(1), wInt(-7)).enc())
+		sig2 := tsig(1, refTBS1(prot2.B, []byte{}, []byte{0}))
+		msg := wTag(18, wArr(prot2, wMap(wInt(99), v), wBstr([]byte{0}), wBstr(sig2)))
+		p("v1 t %s - T:-7:1 -", hexs(msg.enc()))
+		p("dec uh %s", hexs(wMap(wInt(99), v).enc()))
+		p("dec ph %s", hexs(prot.enc()))
+		p("reenc s1 %s clear 2", hexs(msg.enc()))
+		p("enc uh {i64:99=%s}", nestGo(d, "i64:1"))
+		p("enc ph {i64:99=%s}", nestGo(d, "i64:1"))
+		p("s1 t S1(H(-;{i64:1=a:-7,i64:99=%s};-;{i64:98=%s});00;-) - T:-7:1 T:-7:1 a", nestGo(d, "i64:1"), nestGo(d, "i64:1"))
+		// COSE_Sign: the signer's unprotected value sits two levels deeper
+		sg := wArr(prot2.clone(), wMap(wInt(99), v.clone()), wBstr(tsig(1, refTBSSig([]byte{}, prot2.B, []byte{}, []byte{0}))))
+		p("vm %s - [T:-7:1] -", hexs(wTag(98, wArr(wBstr([]byte{}), wMap(), wBstr([]byte{0}), wArr(sg))).enc()))
+	}
+	// chains of nested countersignatures: cs inside cs inside … (each level adds 2: map + array)
+	for depth := 1; depth <= 17; depth++ {
+		for _, list := range []bool{false, true} {
+			inner := wMap()
+			goInner := "{}"
+			for i := 0; i < depth; i++ {
+				c := wArr(wBstr([]byte{}), inner, wBstr([]byte{byte(i + 1)}))
+				gc := fmt.Sprintf("cs(H(-;{};-;%s);%02x)", goInner, i+1)
+				if list {
+					inner = wMap(wInt(11), wArr(c))
+					goInner = "{i64:11=csl[" + gc + "]}"
+				} else {
+					inner = wMap(wInt(7), c)
+					goInner = "{i64:7=" + gc + "}"
+				}
+			}
+			msg := wTag(18, wArr(wBstr([]byte{}), inner, wBstr([]byte{0}), wBstr([]byte{1})))
+			p("dec s1 %s", hexs(msg.enc()))
+			p("use s1 %s", hexs(msg.enc()))
+			p("reenc s1 %s clear 2", hexs(msg.enc()))
+			p("enc s1 S1(H(-;{};-;%s);00;01)", goInner)
+			p("enc uh %s", goInner)
 		}
 	}
 }
